@@ -48,6 +48,9 @@ ASSUMPTIONS = [
     "C18_restore_identical / C18_remodel_idempotent / C18_remodel_from_backup are stated for runs that complete "
     "(a restore or remodel aborted by an OS error is outside the statement); the backup record seen by the "
     "second remodel run is taken equal to the first (the run provably never writes below backups/<name>)",
+    "file and directory names: the model and theorems cover every name that is non-empty, not '.' or '..', without '/' "
+    "and with code points >= 32 (leading periods, blanks, long names included; generated); non-ASCII and control "
+    "characters are generated for the implementation-side oracle only",
     "backup names are strings as the API/CLI accept them; the model resolves them like realpath(join(backups_path, "
     "name)) (empty and '.' components vanish): covered are all spellings resolving to ONE directory entry ('b1/', "
     "'./b1', 'b1/.', 'b1//'); nested names ('a/b'), '..' and absolute names are outside the model and not generated",
@@ -756,6 +759,8 @@ def compare_hist(scn, real, m):
 # ---------------------------------------------------------------- generators
 
 WORDS = ["sub-01", "sub-02", "eeg", "ses-1", "code", "stimuli", "derivatives", "other", "a b", "x.y", "d-1"]
+# names are an input dimension: dot-prefixed, double-dot-prefixed, blanks at either end, upper case, long
+DOTTED = [".orig", ".staging", ".a.b", "..x", "...", ".git", " lead", "trail ", "UPPER", "L" * 60 + "ong"]
 ODD = ['q"t', "back\\slash", "br{ace}", "co,mma", "col:on", "it's", "[b]"]
 OUTSIDE = ["café", "日本", "tab\tname", "nl\nname"]
 TASKS = ["go", "stop", "x", ""]
@@ -777,9 +782,10 @@ def gen_blob(rng):
 def gen_tree(rng, odd=False, outside=False):
     tree = {}
     dirs = [""]
-    for _ in range(rng.randint(0, 4)):
+    dotted = rng.random() < 0.45
+    for _ in range(rng.randint(0, 4) + (1 if dotted else 0)):
         parent = rng.choice(dirs)
-        pool = WORDS + (ODD if odd else []) + (OUTSIDE if outside else [])
+        pool = WORDS + (ODD if odd else []) + (OUTSIDE if outside else []) + (DOTTED * 3 if dotted else [])
         d = (parent + "/" if parent else "") + rng.choice(pool)
         if d.startswith("derivatives/remodel"):
             continue
@@ -803,6 +809,12 @@ def gen_tree(rng, odd=False, outside=False):
         if rel in tree:
             continue
         tree[rel] = gen_tsv(rng) if nm.endswith(".tsv") else gen_blob(rng)
+        # a same-named twin one level up (beside the directory the file lives in) or one level down
+        if parent and rng.random() < 0.35:
+            up = parent.rsplit("/", 1)[0] if "/" in parent else ""
+            twin = (up + "/" if up else "") + nm
+            if twin not in tree:
+                tree[twin] = gen_tsv(rng) if nm.endswith(".tsv") else gen_blob(rng)
     return tree
 
 
@@ -838,7 +850,7 @@ def gen_crash(rng, i, malformed=False):
 
 
 def gen_hist(rng, i):
-    tree = gen_tree(rng, odd=rng.random() < 0.25)
+    tree = gen_tree(rng, odd=rng.random() < 0.25, outside=rng.random() < 0.08)
     fl = files_of(tree)
     if not any(f.endswith("_events.tsv") for f in fl):
         tree["sub-01_task-go_events.tsv"] = gen_tsv(rng)
@@ -946,6 +958,19 @@ CORPUS = [
                {"op": "restore", "name": "back1", "tasks": [], "via": "api"},
                {"op": "restore", "name": "back1", "tasks": [], "via": "api"},
                {"op": "list"}]},
+    # dot-prefixed directories and same-named twins: every directory component is part of the key
+    {"kind": "hist", "tree": {"sub1": None, "sub1/.orig": None, "sub1/.orig/sub1_events.tsv": "onset\tduration\n1\t2\n",
+                              "sub1/sub1_events.tsv": "onset\tduration\n3\t4\n", "..x y": None,
+                              "..x y/.n_events.tsv": "onset\tduration\n5\t6\n"},
+     "steps": [{"op": "create", "files": [], "name": "back1", "via": "cli"},
+               {"op": "write", "path": "sub1/.orig/sub1_events.tsv", "data": "gone"},
+               {"op": "delete", "path": "..x y/.n_events.tsv"},
+               {"op": "restore", "name": "back1", "tasks": [], "via": "api"},
+               {"op": "remodel", "name": "back1", "tasks": []},
+               {"op": "remodel", "name": "back1", "tasks": []},
+               {"op": "list"}]},
+    {"kind": "crash", "tree": {".s": None, ".s/a.txt": "xyz", "a.txt": "uvw", ".s/.t": None, ".s/.t/a.txt": "1"},
+     "files": [".s/a.txt", "a.txt", ".s/.t/a.txt"], "name": "b1", "pre": []},
     # the Coq non-vacuity instance, every crash point and every byte of every partial write
     {"kind": "crash", "tree": {"sub": None, "sub/a_task_x.t": "\x01\x02\x03", 'c"\\': "\x07"},
      "files": ["sub/a_task_x.t", 'c"\\'], "name": "b1", "all_k": True, "pre": []},
